@@ -43,7 +43,7 @@ PROBES = [
     "caching off",
 ]
 TIERS = {
-    "quick": {"batches": 16, "runs": 3000, "budget_s": 40},
+    "quick": {"batches": 16, "runs": 3000, "budget_s": 90},
     "thorough": {"batches": 128, "runs": 4000, "budget_s": 900},
 }
 DETERMINISM_SLICE = 8
